@@ -1,3 +1,500 @@
 // harnesses mounted as child module of agdb/src/graph_search/path_search.rs
 #[allow(unused_imports)]
 use super::*;
+
+use crate::graph::verif_h::{ArrG, RefGraph, graph_step, new_arr_graph};
+use crate::graph_search::GraphSearch;
+use crate::verif_support::{ArrStorage, GN, ok};
+
+/// Cost class per slot: 0 = the conditions stop here (unusable), 1 = passes
+/// (cost 1, listed), 2 = fails but usable (cost 2, not listed) -- what
+/// `PathHandler::process` derives from Continue(true) / Continue(false) / Stop|Finish.
+struct C17Handler {
+    cls: [u8; GN],
+}
+
+impl PathSearchHandler for C17Handler {
+    fn process(&self, index: GraphIndex, _distance: u64) -> Result<(u64, bool), DbError> {
+        let sl = index.as_u64() as usize;
+        assert!(sl >= 1 && sl < GN, "handler given an id outside the slots");
+        Ok(match self.cls[sl] {
+            0 => (0, false),
+            1 => (1, true),
+            _ => (2, false),
+        })
+    }
+}
+
+/// Replaces `std::mem::swap` (the byte-wise swap loses all constants): typed moves.
+pub(crate) fn c17_swap<T>(a: &mut T, b: &mut T) {
+    unsafe {
+        let t = std::ptr::read(a);
+        std::ptr::write(a, std::ptr::read(b));
+        std::ptr::write(b, t);
+    }
+}
+
+/// Replaces `<[T]>::sort_by` (std's driftsort/smallsort do not constant-fold and
+/// dominate the run): a plain stable insertion sort driven by the real comparator.
+pub(crate) struct C17Sort<T>(std::marker::PhantomData<T>);
+
+impl<T> C17Sort<T> {
+    pub(crate) fn sort_by<F>(v: &mut [T], mut compare: F)
+    where
+        F: FnMut(&T, &T) -> Ordering,
+    {
+        let n = v.len();
+        let mut i = 1;
+        while i < n {
+            let mut j = i;
+            while j > 0 && compare(&v[j - 1], &v[j]) == Ordering::Greater {
+                v.swap(j - 1, j);
+                j -= 1;
+            }
+            i += 1;
+        }
+    }
+}
+
+fn c17_cost(c: u8) -> u64 {
+    if c == 1 { 1 } else { 2 }
+}
+
+fn c17_path(a: i64, na: usize, cost: u64) -> Path {
+    // `na` elements (content irrelevant for ordering), given cost
+    let mut elements = Vec::with_capacity(4);
+    let mut k = 0;
+    while k < na {
+        elements.push((GraphIndex(a), true));
+        k += 1;
+    }
+    Path { elements, cost }
+}
+
+//@ id=C17 tier=quick timeout=300 bounds="three partial paths with symbolic costs (any u64) and lengths 1,3,2 in the work list" desc="lemma (selection): after PathSearch::sort_paths the work list is a permutation of itself in non-increasing cost, so the path popped next (the last) has minimal cost" kernel="PathSearch::sort_paths" args="--no-assertion-reach-checks"
+#[kani::proof]
+#[kani::stub(<[Path]>::sort_by, C17Sort::sort_by)]
+#[kani::stub(std::mem::swap, c17_swap)]
+#[kani::stub(std::fmt::format, crate::verif_support::fmt_stub)]
+#[kani::stub(crate::DbError::new, crate::verif_support::dberror_new_stub)]
+#[kani::unwind(6)]
+fn c17_sort_paths_cheapest_last() {
+    let s = crate::storage::verif_h::fresh_arr_storage();
+    let g = new_arr_graph();
+    let h = C17Handler { cls: [1; GN] };
+    let mut ps = PathSearch::new(&g, &s, GraphIndex(1), GraphIndex(2), h);
+    let c: [u64; 3] = [kani::any(), kani::any(), kani::any()];
+    let mut paths = Vec::with_capacity(4);
+    paths.push(c17_path(1, 1, c[0]));
+    paths.push(c17_path(2, 3, c[1]));
+    paths.push(c17_path(3, 2, c[2]));
+    let old = std::mem::replace(&mut ps.paths, paths);
+    std::mem::forget(old);
+    ps.sort_paths();
+    assert!(ps.paths.len() == 3, "sort changed the number of paths");
+    let n = [ps.paths[0].cost, ps.paths[1].cost, ps.paths[2].cost];
+    assert!(n[0] >= n[1] && n[1] >= n[2], "work list not in non-increasing cost: cheapest path is not last");
+    // permutation: every path is still there with its own cost (identified by its first element)
+    let mut k = 0;
+    while k < 3 {
+        let id = ps.paths[k].elements[0].0.0;
+        assert!(id >= 1 && id <= 3 && ps.paths[k].cost == c[(id - 1) as usize], "a path lost its cost");
+        assert!(ps.paths[k].elements.len() == [1usize, 3, 2][(id - 1) as usize], "a path lost its elements");
+        k += 1;
+    }
+    assert!(ps.paths[0].elements[0].0.0 + ps.paths[1].elements[0].0.0 + ps.paths[2].elements[0].0.0 == 6
+        && ps.paths[0].elements[0].0.0 != ps.paths[1].elements[0].0.0
+        && ps.paths[1].elements[0].0.0 != ps.paths[2].elements[0].0.0, "a path was duplicated");
+    kani::cover!(c[0] == c[1] && c[1] == c[2], "all costs equal");
+    kani::cover!(c[0] < c[1] && c[1] < c[2], "ascending input fully reversed");
+    kani::cover!(true, "end of harness reachable");
+    std::mem::forget(ps);
+}
+
+//@ id=C17 tier=quick timeout=600 bounds="concrete graph: nodes 1,2,3; edges -4 = 1->2, -5 = 1->3; current path [1] with symbolic cost < 100; node 1 visited; nodes 2 and 3 visited or not (symbolic); symbolic cost class (pass / fail / stop) for both edges and for nodes 2, 3" desc="lemma (expansion): PathSearch::expand pushes exactly one successor path per outgoing edge (newest first) whose edge and target are usable and whose target is not yet settled; each successor = current path + edge + target with cost increased by 1 per passing and 2 per failing element and the pass flags recorded; nothing else is pushed" kernel="PathSearch::expand,PathSearch::expand_edge,PathSearch::expand_node" args="--no-assertion-reach-checks" cbmc="--unwindset _RINvNtCs8xvirJzNMvV_4core3ptr9drop_glueNtNtNtCsblifWy3Zr35_4agdb2db8db_error7DbErrorEBH_:1"
+#[kani::proof]
+#[kani::stub(<[Path]>::sort_by, C17Sort::sort_by)]
+#[kani::stub(std::mem::swap, c17_swap)]
+#[kani::stub(std::fmt::format, crate::verif_support::fmt_stub)]
+#[kani::stub(crate::DbError::new, crate::verif_support::dberror_new_stub)]
+#[kani::unwind(7)]
+fn c17_expand_successors() {
+    let mut s = crate::storage::verif_h::fresh_arr_storage();
+    let mut g = new_arr_graph();
+    let mut m = RefGraph::with_limit(7);
+    graph_step(&mut g, &mut s, &mut m, 0, 0, 0);
+    graph_step(&mut g, &mut s, &mut m, 0, 0, 0);
+    graph_step(&mut g, &mut s, &mut m, 0, 0, 0);
+    graph_step(&mut g, &mut s, &mut m, 1, 1, 2);
+    graph_step(&mut g, &mut s, &mut m, 1, 1, 3);
+    let mut cls = [1u8; GN];
+    cls[2] = kani::any();
+    cls[3] = kani::any();
+    cls[4] = kani::any();
+    cls[5] = kani::any();
+    kani::assume(cls[2] <= 2 && cls[3] <= 2 && cls[4] <= 2 && cls[5] <= 2);
+    let h = C17Handler { cls };
+    let mut ps = PathSearch::new(&g, &s, GraphIndex(1), GraphIndex(3), h);
+    let old = std::mem::replace(&mut ps.paths, Vec::with_capacity(4));
+    std::mem::forget(old);
+    let c: u64 = kani::any();
+    kani::assume(c < 100);
+    let mut el = Vec::with_capacity(4);
+    el.push((GraphIndex(1), true));
+    let oldp = std::mem::replace(&mut ps.current_path, Path { elements: el, cost: c });
+    std::mem::forget(oldp);
+    ps.visited.set(1);
+    ps.visited.set(2);
+    ps.visited.set(3);
+    let v2: bool = kani::any();
+    let v3: bool = kani::any();
+    if !v2 {
+        ps.visited.unset(2);
+    }
+    if !v3 {
+        ps.visited.unset(3);
+    }
+    let r = ps.expand(GraphIndex(1));
+    assert!(crate::verif_support::is_ok(r), "expand failed");
+    // outgoing edges of 1, newest first: -5 (to 3), -4 (to 2)
+    let use5 = cls[5] != 0 && cls[3] != 0 && !v3;
+    let use4 = cls[4] != 0 && cls[2] != 0 && !v2;
+    assert!(ps.paths.len() == use5 as usize + use4 as usize, "number of successor paths differs");
+    if use5 {
+        let p = &ps.paths[0];
+        assert!(p.elements.len() == 3 && p.elements[0].0.0 == 1 && p.elements[1].0.0 == -5 && p.elements[2].0.0 == 3, "successor over -5 is not [1,-5,3] or not first");
+        assert!(p.cost == c + c17_cost(cls[5]) + c17_cost(cls[3]), "successor cost differs");
+        assert!(p.elements[1].1 == (cls[5] == 1) && p.elements[2].1 == (cls[3] == 1), "pass flags differ");
+    }
+    if use4 {
+        let p = &ps.paths[use5 as usize];
+        assert!(p.elements.len() == 3 && p.elements[0].0.0 == 1 && p.elements[1].0.0 == -4 && p.elements[2].0.0 == 2, "successor over -4 is not [1,-4,2]");
+        assert!(p.cost == c + c17_cost(cls[4]) + c17_cost(cls[2]), "successor cost differs");
+        assert!(p.elements[1].1 == (cls[4] == 1) && p.elements[2].1 == (cls[2] == 1), "pass flags differ");
+    }
+    assert!(ps.current_path.elements.len() == 1 && ps.current_path.cost == c, "current path changed");
+    kani::cover!(use5 && use4, "both successors");
+    kani::cover!(cls[5] == 2 && cls[3] == 2 && use5, "failing edge and failing node cost 2 each");
+    kani::cover!(!use5 && !use4 && cls[4] == 1 && cls[2] == 0, "target at which the conditions stop is unusable");
+    kani::cover!(true, "end of harness reachable");
+    std::mem::forget(ps);
+    std::mem::forget(s);
+}
+
+//@ id=C17 tier=quick timeout=600 bounds="concrete graph: nodes 1,2,3; edges -4 = 1->2, -5 = 1->3, -6 = 1->1; current path [1] with symbolic cost < 100; node 1 visited; nodes 2 and 3 not visited; symbolic cost class (pass / fail / stop) for every edge and for nodes 2, 3" desc="lemma (expansion, self-loop): PathSearch::expand pushes exactly one successor path per outgoing edge (newest first) whose edge and target are usable and whose target is not yet settled; each successor = current path + edge + target with cost increased by 1 per passing and 2 per failing element and the pass flags recorded; nothing else is pushed" kernel="PathSearch::expand,PathSearch::expand_edge,PathSearch::expand_node" args="--no-assertion-reach-checks" cbmc="--unwindset _RINvNtCs8xvirJzNMvV_4core3ptr9drop_glueNtNtNtCsblifWy3Zr35_4agdb2db8db_error7DbErrorEBH_:1"
+#[kani::proof]
+#[kani::stub(<[Path]>::sort_by, C17Sort::sort_by)]
+#[kani::stub(std::mem::swap, c17_swap)]
+#[kani::stub(std::fmt::format, crate::verif_support::fmt_stub)]
+#[kani::stub(crate::DbError::new, crate::verif_support::dberror_new_stub)]
+#[kani::unwind(7)]
+fn c17_expand_skips_selfloop() {
+    let mut s = crate::storage::verif_h::fresh_arr_storage();
+    let mut g = new_arr_graph();
+    let mut m = RefGraph::with_limit(7);
+    graph_step(&mut g, &mut s, &mut m, 0, 0, 0);
+    graph_step(&mut g, &mut s, &mut m, 0, 0, 0);
+    graph_step(&mut g, &mut s, &mut m, 0, 0, 0);
+    graph_step(&mut g, &mut s, &mut m, 1, 1, 2);
+    graph_step(&mut g, &mut s, &mut m, 1, 1, 3);
+    graph_step(&mut g, &mut s, &mut m, 1, 1, 1);
+    let mut cls = [1u8; GN];
+    cls[2] = kani::any();
+    cls[3] = kani::any();
+    cls[4] = kani::any();
+    cls[5] = kani::any();
+    cls[6] = kani::any();
+    kani::assume(cls[2] <= 2 && cls[3] <= 2 && cls[4] <= 2 && cls[5] <= 2 && cls[6] <= 2);
+    let h = C17Handler { cls };
+    let mut ps = PathSearch::new(&g, &s, GraphIndex(1), GraphIndex(3), h);
+    let old = std::mem::replace(&mut ps.paths, Vec::with_capacity(4));
+    std::mem::forget(old);
+    let c: u64 = kani::any();
+    kani::assume(c < 100);
+    let mut el = Vec::with_capacity(4);
+    el.push((GraphIndex(1), true));
+    let oldp = std::mem::replace(&mut ps.current_path, Path { elements: el, cost: c });
+    std::mem::forget(oldp);
+    ps.visited.set(1);
+    ps.visited.set(2);
+    ps.visited.set(3);
+    let v2 = false;
+    let v3 = false;
+    if !v2 {
+        ps.visited.unset(2);
+    }
+    if !v3 {
+        ps.visited.unset(3);
+    }
+    let r = ps.expand(GraphIndex(1));
+    assert!(crate::verif_support::is_ok(r), "expand failed");
+    // outgoing edges of 1, newest first: -6 (self-loop, target settled), -5 (to 3), -4 (to 2)
+    let use5 = cls[5] != 0 && cls[3] != 0 && !v3;
+    let use4 = cls[4] != 0 && cls[2] != 0 && !v2;
+    assert!(ps.paths.len() == use5 as usize + use4 as usize, "number of successor paths differs");
+    if use5 {
+        let p = &ps.paths[0];
+        assert!(p.elements.len() == 3 && p.elements[0].0.0 == 1 && p.elements[1].0.0 == -5 && p.elements[2].0.0 == 3, "successor over -5 is not [1,-5,3] or not first");
+        assert!(p.cost == c + c17_cost(cls[5]) + c17_cost(cls[3]), "successor cost differs");
+        assert!(p.elements[1].1 == (cls[5] == 1) && p.elements[2].1 == (cls[3] == 1), "pass flags differ");
+    }
+    if use4 {
+        let p = &ps.paths[use5 as usize];
+        assert!(p.elements.len() == 3 && p.elements[0].0.0 == 1 && p.elements[1].0.0 == -4 && p.elements[2].0.0 == 2, "successor over -4 is not [1,-4,2]");
+        assert!(p.cost == c + c17_cost(cls[4]) + c17_cost(cls[2]), "successor cost differs");
+        assert!(p.elements[1].1 == (cls[4] == 1) && p.elements[2].1 == (cls[2] == 1), "pass flags differ");
+    }
+    assert!(ps.current_path.elements.len() == 1 && ps.current_path.cost == c, "current path changed");
+    kani::cover!(use5 && use4, "both successors");
+    kani::cover!(cls[5] == 2 && cls[3] == 2 && use5, "failing edge and failing node cost 2 each");
+    kani::cover!(!use5 && !use4 && cls[4] == 1 && cls[2] == 0, "target at which the conditions stop is unusable");
+    kani::cover!(true, "end of harness reachable");
+    std::mem::forget(ps);
+    std::mem::forget(s);
+}
+
+//@ id=C17 tier=quick timeout=900 bounds="concrete graph: nodes 1,2, edge -3 = 1->2; from 1 to 2; four concrete cost assignments (all pass; edge fails; edge stops; destination stops)" desc="end to end on the smallest graph: GraphSearch::path lists exactly the passing elements of the only path, and returns an empty list when the edge or the destination is an element at which the conditions stop" kernel="GraphSearch::path,PathSearch::new,PathSearch::search,PathSearch::process_index,PathSearch::expand" args="--no-assertion-reach-checks" cbmc="--unwindset _RINvNtCs8xvirJzNMvV_4core3ptr9drop_glueNtNtNtCsblifWy3Zr35_4agdb2db8db_error7DbErrorEBH_:1"
+#[kani::proof]
+#[kani::stub(<[Path]>::sort_by, C17Sort::sort_by)]
+#[kani::stub(std::mem::swap, c17_swap)]
+#[kani::stub(std::fmt::format, crate::verif_support::fmt_stub)]
+#[kani::stub(crate::DbError::new, crate::verif_support::dberror_new_stub)]
+#[kani::unwind(6)]
+fn c17_single_edge_end_to_end() {
+    let mut s = crate::storage::verif_h::fresh_arr_storage();
+    let mut g = new_arr_graph();
+    let mut m = RefGraph::with_limit(4);
+    graph_step(&mut g, &mut s, &mut m, 0, 0, 0);
+    graph_step(&mut g, &mut s, &mut m, 0, 0, 0);
+    graph_step(&mut g, &mut s, &mut m, 1, 1, 2);
+    let res = ok(GraphSearch::from((&g, &s)).path(GraphIndex(1), GraphIndex(2), C17Handler { cls: [1; GN] }));
+    assert!(res.len() == 3 && res[0].0 == 1 && res[1].0 == -3 && res[2].0 == 2, "all pass: [1,-3,2]");
+    std::mem::forget(res);
+    let mut cls = [1u8; GN];
+    cls[3] = 2;
+    let res = ok(GraphSearch::from((&g, &s)).path(GraphIndex(1), GraphIndex(2), C17Handler { cls }));
+    assert!(res.len() == 2 && res[0].0 == 1 && res[1].0 == 2, "failing edge is used but not listed");
+    std::mem::forget(res);
+    cls[3] = 0;
+    let res = ok(GraphSearch::from((&g, &s)).path(GraphIndex(1), GraphIndex(2), C17Handler { cls }));
+    assert!(res.len() == 0, "edge at which the conditions stop cannot be used");
+    std::mem::forget(res);
+    cls[3] = 1;
+    cls[2] = 0;
+    let res = ok(GraphSearch::from((&g, &s)).path(GraphIndex(1), GraphIndex(2), C17Handler { cls }));
+    assert!(res.len() == 0, "destination at which the conditions stop cannot be reached");
+    std::mem::forget(res);
+    let res = ok(GraphSearch::from((&g, &s)).path(GraphIndex(2), GraphIndex(1), C17Handler { cls: [1; GN] }));
+    assert!(res.len() == 0, "no path against the edge direction");
+    std::mem::forget(res);
+    kani::cover!(true, "end of harness reachable");
+    std::mem::forget(s);
+}
+
+//@ id=C17 tier=quick timeout=600 bounds="state: nodes 1,2 live, node 3 removed, edge -4 = 1->2; 12 concrete (from, to) pairs: from == to, removed node, edge id, zero, beyond the capacity, i64::MAX, i64::MIN + 1 on either side; plus the valid pair (1, 2)" desc="GraphSearch::path returns an empty list (and constructs no search) when origin equals destination or an endpoint is zero, out of range, a removed node, or an edge id" kernel="GraphSearch::path,GraphSearch::is_valid_node" args="--no-assertion-reach-checks" cbmc="--unwindset _RINvNtCs8xvirJzNMvV_4core3ptr9drop_glueNtNtNtCsblifWy3Zr35_4agdb2db8db_error7DbErrorEBH_:1"
+#[kani::proof]
+#[kani::stub(<[Path]>::sort_by, C17Sort::sort_by)]
+#[kani::stub(std::mem::swap, c17_swap)]
+#[kani::stub(std::fmt::format, crate::verif_support::fmt_stub)]
+#[kani::stub(crate::DbError::new, crate::verif_support::dberror_new_stub)]
+#[kani::unwind(14)]
+fn c17_invalid_endpoints_empty() {
+    let mut s = crate::storage::verif_h::fresh_arr_storage();
+    let mut g = new_arr_graph();
+    let mut m = RefGraph::with_limit(5);
+    graph_step(&mut g, &mut s, &mut m, 0, 0, 0);
+    graph_step(&mut g, &mut s, &mut m, 0, 0, 0);
+    graph_step(&mut g, &mut s, &mut m, 0, 0, 0);
+    graph_step(&mut g, &mut s, &mut m, 1, 1, 2);
+    graph_step(&mut g, &mut s, &mut m, 2, 3, 0);
+    let pairs: [(i64, i64); 12] = [
+        (1, 1),
+        (2, 2),
+        (1, 3),
+        (3, 1),
+        (-4, 2),
+        (1, -4),
+        (0, 1),
+        (1, 0),
+        (5, 1),
+        (1, 7),
+        (i64::MAX, 1),
+        (2, i64::MIN + 1),
+    ];
+    let mut k = 0;
+    while k < 12 {
+        let (from, to) = pairs[k];
+        let res = ok(GraphSearch::from((&g, &s)).path(GraphIndex(from), GraphIndex(to), C17Handler { cls: [1; GN] }));
+        assert!(res.len() == 0, "path with an invalid endpoint or origin == destination is not empty");
+        std::mem::forget(res);
+        k += 1;
+    }
+    let res = ok(GraphSearch::from((&g, &s)).path(GraphIndex(1), GraphIndex(2), C17Handler { cls: [1; GN] }));
+    assert!(res.len() == 3 && res[1].0 == -4, "the valid pair of the same graph has the path [1,-4,2]");
+    kani::cover!(true, "end of harness reachable");
+    std::mem::forget(res);
+    std::mem::forget(s);
+}
+
+//@ id=C17 tier=quick timeout=600 bounds="concrete graph: nodes 1,2,3; edge -4 = 2->3; destination 3; current path [1,?,x] with symbolic cost < 100 where x = destination; all elements pass" desc="lemma (settling): PathSearch::process_index turns the current path into the result when it ends at the destination (search finished); ignores it when its end node is already settled; otherwise settles the end node and pushes its successors" kernel="PathSearch::process_index,PathSearch::is_finished,PathSearch::expand" args="--no-assertion-reach-checks" cbmc="--unwindset _RINvNtCs8xvirJzNMvV_4core3ptr9drop_glueNtNtNtCsblifWy3Zr35_4agdb2db8db_error7DbErrorEBH_:1"
+#[kani::proof]
+#[kani::stub(<[Path]>::sort_by, C17Sort::sort_by)]
+#[kani::stub(std::mem::swap, c17_swap)]
+#[kani::stub(std::fmt::format, crate::verif_support::fmt_stub)]
+#[kani::stub(crate::DbError::new, crate::verif_support::dberror_new_stub)]
+#[kani::unwind(7)]
+fn c17_process_index_destination() {
+    let mut s = crate::storage::verif_h::fresh_arr_storage();
+    let mut g = new_arr_graph();
+    let mut m = RefGraph::with_limit(5);
+    graph_step(&mut g, &mut s, &mut m, 0, 0, 0);
+    graph_step(&mut g, &mut s, &mut m, 0, 0, 0);
+    graph_step(&mut g, &mut s, &mut m, 0, 0, 0);
+    graph_step(&mut g, &mut s, &mut m, 1, 2, 3);
+    let mut ps = PathSearch::new(&g, &s, GraphIndex(1), GraphIndex(3), C17Handler { cls: [1; GN] });
+    let old = std::mem::replace(&mut ps.paths, Vec::with_capacity(4));
+    std::mem::forget(old);
+    let c: u64 = kani::any();
+    kani::assume(c < 100);
+    let at_dest = true;
+    let x: i64 = if at_dest { 3 } else { 2 };
+    let mut el = Vec::with_capacity(8);
+    el.push((GraphIndex(1), true));
+    el.push((GraphIndex(-6), true));
+    el.push((GraphIndex(x), true));
+    let oldp = std::mem::replace(&mut ps.current_path, Path { elements: el, cost: c });
+    std::mem::forget(oldp);
+    ps.visited.set(1);
+    ps.visited.set(2);
+    let settled = false;
+    if !settled {
+        ps.visited.unset(2);
+    }
+    let r = ps.process_index(GraphIndex(x));
+    assert!(crate::verif_support::is_ok(r), "process_index failed");
+    if at_dest {
+        assert!(ps.is_finished(), "destination reached but search not finished");
+        assert!(ps.result.len() == 3 && ps.result[2].0.0 == 3 && ps.result[1].0.0 == -6, "result is not the current path");
+        assert!(ps.paths.len() == 0, "destination was expanded");
+    } else if settled {
+        assert!(ps.result.is_empty() && ps.paths.len() == 0, "settled node processed again");
+    } else {
+        assert!(ps.result.is_empty(), "result without reaching the destination");
+        assert!(ps.visited.value(2), "end node not settled");
+        assert!(ps.paths.len() == 1, "successor missing");
+        let p = &ps.paths[0];
+        assert!(p.cost == c + 2 && p.elements.len() == 5 && p.elements[3].0.0 == -4 && p.elements[4].0.0 == 3, "successor is not [1,-6,2,-4,3] with cost + 2");
+    }
+    kani::cover!(true, "end of harness reachable");
+    std::mem::forget(ps);
+    std::mem::forget(s);
+}
+
+//@ id=C17 tier=quick timeout=600 bounds="concrete graph: nodes 1,2,3; edge -4 = 2->3; destination 3; current path [1,?,x] with symbolic cost < 100 where x = node 2, already settled; all elements pass" desc="lemma (settling): PathSearch::process_index turns the current path into the result when it ends at the destination (search finished); ignores it when its end node is already settled; otherwise settles the end node and pushes its successors" kernel="PathSearch::process_index,PathSearch::is_finished,PathSearch::expand" args="--no-assertion-reach-checks" cbmc="--unwindset _RINvNtCs8xvirJzNMvV_4core3ptr9drop_glueNtNtNtCsblifWy3Zr35_4agdb2db8db_error7DbErrorEBH_:1"
+#[kani::proof]
+#[kani::stub(<[Path]>::sort_by, C17Sort::sort_by)]
+#[kani::stub(std::mem::swap, c17_swap)]
+#[kani::stub(std::fmt::format, crate::verif_support::fmt_stub)]
+#[kani::stub(crate::DbError::new, crate::verif_support::dberror_new_stub)]
+#[kani::unwind(7)]
+fn c17_process_index_settled() {
+    let mut s = crate::storage::verif_h::fresh_arr_storage();
+    let mut g = new_arr_graph();
+    let mut m = RefGraph::with_limit(5);
+    graph_step(&mut g, &mut s, &mut m, 0, 0, 0);
+    graph_step(&mut g, &mut s, &mut m, 0, 0, 0);
+    graph_step(&mut g, &mut s, &mut m, 0, 0, 0);
+    graph_step(&mut g, &mut s, &mut m, 1, 2, 3);
+    let mut ps = PathSearch::new(&g, &s, GraphIndex(1), GraphIndex(3), C17Handler { cls: [1; GN] });
+    let old = std::mem::replace(&mut ps.paths, Vec::with_capacity(4));
+    std::mem::forget(old);
+    let c: u64 = kani::any();
+    kani::assume(c < 100);
+    let at_dest = false;
+    let x: i64 = if at_dest { 3 } else { 2 };
+    let mut el = Vec::with_capacity(8);
+    el.push((GraphIndex(1), true));
+    el.push((GraphIndex(-6), true));
+    el.push((GraphIndex(x), true));
+    let oldp = std::mem::replace(&mut ps.current_path, Path { elements: el, cost: c });
+    std::mem::forget(oldp);
+    ps.visited.set(1);
+    ps.visited.set(2);
+    let settled = true;
+    if !settled {
+        ps.visited.unset(2);
+    }
+    let r = ps.process_index(GraphIndex(x));
+    assert!(crate::verif_support::is_ok(r), "process_index failed");
+    if at_dest {
+        assert!(ps.is_finished(), "destination reached but search not finished");
+        assert!(ps.result.len() == 3 && ps.result[2].0.0 == 3 && ps.result[1].0.0 == -6, "result is not the current path");
+        assert!(ps.paths.len() == 0, "destination was expanded");
+    } else if settled {
+        assert!(ps.result.is_empty() && ps.paths.len() == 0, "settled node processed again");
+    } else {
+        assert!(ps.result.is_empty(), "result without reaching the destination");
+        assert!(ps.visited.value(2), "end node not settled");
+        assert!(ps.paths.len() == 1, "successor missing");
+        let p = &ps.paths[0];
+        assert!(p.cost == c + 2 && p.elements.len() == 5 && p.elements[3].0.0 == -4 && p.elements[4].0.0 == 3, "successor is not [1,-6,2,-4,3] with cost + 2");
+    }
+    kani::cover!(true, "end of harness reachable");
+    std::mem::forget(ps);
+    std::mem::forget(s);
+}
+
+//@ id=C17 tier=quick timeout=600 bounds="concrete graph: nodes 1,2,3; edge -4 = 2->3; destination 3; current path [1,?,x] with symbolic cost < 100 where x = node 2, open; all elements pass" desc="lemma (settling): PathSearch::process_index turns the current path into the result when it ends at the destination (search finished); ignores it when its end node is already settled; otherwise settles the end node and pushes its successors" kernel="PathSearch::process_index,PathSearch::is_finished,PathSearch::expand" args="--no-assertion-reach-checks" cbmc="--unwindset _RINvNtCs8xvirJzNMvV_4core3ptr9drop_glueNtNtNtCsblifWy3Zr35_4agdb2db8db_error7DbErrorEBH_:1"
+#[kani::proof]
+#[kani::stub(<[Path]>::sort_by, C17Sort::sort_by)]
+#[kani::stub(std::mem::swap, c17_swap)]
+#[kani::stub(std::fmt::format, crate::verif_support::fmt_stub)]
+#[kani::stub(crate::DbError::new, crate::verif_support::dberror_new_stub)]
+#[kani::unwind(7)]
+fn c17_process_index_open() {
+    let mut s = crate::storage::verif_h::fresh_arr_storage();
+    let mut g = new_arr_graph();
+    let mut m = RefGraph::with_limit(5);
+    graph_step(&mut g, &mut s, &mut m, 0, 0, 0);
+    graph_step(&mut g, &mut s, &mut m, 0, 0, 0);
+    graph_step(&mut g, &mut s, &mut m, 0, 0, 0);
+    graph_step(&mut g, &mut s, &mut m, 1, 2, 3);
+    let mut ps = PathSearch::new(&g, &s, GraphIndex(1), GraphIndex(3), C17Handler { cls: [1; GN] });
+    let old = std::mem::replace(&mut ps.paths, Vec::with_capacity(4));
+    std::mem::forget(old);
+    let c: u64 = kani::any();
+    kani::assume(c < 100);
+    let at_dest = false;
+    let x: i64 = if at_dest { 3 } else { 2 };
+    let mut el = Vec::with_capacity(8);
+    el.push((GraphIndex(1), true));
+    el.push((GraphIndex(-6), true));
+    el.push((GraphIndex(x), true));
+    let oldp = std::mem::replace(&mut ps.current_path, Path { elements: el, cost: c });
+    std::mem::forget(oldp);
+    ps.visited.set(1);
+    ps.visited.set(2);
+    let settled = false;
+    if !settled {
+        ps.visited.unset(2);
+    }
+    let r = ps.process_index(GraphIndex(x));
+    assert!(crate::verif_support::is_ok(r), "process_index failed");
+    if at_dest {
+        assert!(ps.is_finished(), "destination reached but search not finished");
+        assert!(ps.result.len() == 3 && ps.result[2].0.0 == 3 && ps.result[1].0.0 == -6, "result is not the current path");
+        assert!(ps.paths.len() == 0, "destination was expanded");
+    } else if settled {
+        assert!(ps.result.is_empty() && ps.paths.len() == 0, "settled node processed again");
+    } else {
+        assert!(ps.result.is_empty(), "result without reaching the destination");
+        assert!(ps.visited.value(2), "end node not settled");
+        assert!(ps.paths.len() == 1, "successor missing");
+        let p = &ps.paths[0];
+        assert!(p.cost == c + 2 && p.elements.len() == 5 && p.elements[3].0.0 == -4 && p.elements[4].0.0 == 3, "successor is not [1,-6,2,-4,3] with cost + 2");
+    }
+    kani::cover!(true, "end of harness reachable");
+    std::mem::forget(ps);
+    std::mem::forget(s);
+}
+
